@@ -215,6 +215,8 @@ def verb_programs(built):
         ("join-full-padding", lambda: a >> pdt.full_join(b, a.k == b.k, suffix="_r")),
         ("union-widths", lambda: a >> pdt.union(b)),
         ("union-widths-distinct", lambda: b >> pdt.union(a, distinct=True)),
+        ("union-permuted", lambda: a >> pdt.select(a.k, a.i8, a.f64, a.s) >> pdt.union(b >> pdt.select(b.s, b.f64, b.i8, b.k))),
+        ("union-permuted-2", lambda: b >> pdt.select(b.i64, b.f32) >> pdt.union(a >> pdt.select(a.f32, a.i64), distinct=True) >> pdt.mutate(z=C.i64 + 1, w=C.f32 * 2)),
         ("union-then-mutate", lambda: a >> pdt.union(b) >> pdt.mutate(z=C.i8 + 1, w=C.f64 * 2)),
         ("all-null-column", lambda: a >> pdt.filter(a.k == 2) >> pdt.mutate(z=a.i8 + 1)),
         ("window", lambda: a >> pdt.mutate(r=pdt.row_number(arrange=a.k), sh=a.i8.shift(1, arrange=a.k), cs=a.f32.cum_sum(arrange=a.k), rk=pdt.rank(arrange=a.k))),
